@@ -527,12 +527,18 @@ func sameValue(a, b Value) bool {
 }
 
 func identicalT(a, b types.Type) bool {
-	_, na := a.(*noopType)
-	_, nb := b.(*noopType)
-	if na || nb {
+	if isPseudoType(a) || isPseudoType(b) {
 		return a == b
 	}
 	return types.Identical(a, b)
+}
+
+func isPseudoType(t types.Type) bool {
+	switch t.(type) {
+	case *noopType, *reflType:
+		return true
+	}
+	return false
 }
 
 func sameBacking(a, b []Value) bool {
